@@ -120,7 +120,7 @@ def gen_compound(draw):
     if src_alias is not None and out[aliases[src_alias][0]][0] != src_cur:
         src_alias = None
     return {"k": "compound", "shape": shape, "decl": out, "src": out.index(src), "aliases": aliases,
-            "src_alias": src_alias,
+            "src_alias": src_alias, "slashy": draw(st.sampled_from([0, 0, 0, 1, 2])),
             "amt": draw(gen.encode(gen.fractions(), ("int", "dec", "frac"))), "rate": r, "op": op}
 
 
@@ -270,8 +270,13 @@ def run_case(case, ctx):
     n = next(_ctr)
     shape = case["shape"]
     X = QuantityMeta(f"C10X{n}", (Quantity,), {}, ref_unit_symbol=f"cx{n}", ref_unit_name="x")
-    xu = [X.ref_unit, X.new_unit(f"cxk{n}", "kx", 1000 * X.ref_unit), X.new_unit(f"cxe{n}", "x/8",
-                                                                                   Fraction(1, 8) * X.ref_unit)]
+    # unit symbols are free text: 'kWh/m²/a'-like symbols with two slashes end up inside the generated symbols
+    # and messages of the compound units
+    sl = "/p/q" if case.get("slashy") else ""
+    if sl:
+        ctx.label("compound/slashy_symbols")
+    xu = [X.ref_unit, X.new_unit(f"cxk{n}{sl}", "kx", 1000 * X.ref_unit), X.new_unit(f"cxe{n}{sl}", "x/8",
+                                                                                       Fraction(1, 8) * X.ref_unit)]
     if shape == "M/X":
         P = QuantityMeta(f"C10P{n}", (Quantity,), {}, define_as=Money / X)
         exps = [-1]
@@ -290,7 +295,15 @@ def run_case(case, ctx):
     for d in case["decl"]:
         cur = Money.register_currency(d[0])
         args = [cur, xu[d[1]]] + ([yu[d[2]]] if yu else [])
-        u = P.derive_unit_from(*args)
+        try:
+            if case.get("slashy") == 1:
+                u = P.derive_unit_from(*args, symbol=f"c10s{n}_{len(units)}")
+            else:
+                u = P.derive_unit_from(*args)
+        except Exception as exc:  # noqa: BLE001
+            ctx.viol(f"compound/declare/{type(exc).__name__}", f"{P.__name__}.derive_unit_from({', '.join(map(str, args))}) "
+                     f"raised {type(exc).__name__}: {exc}")
+            return
         f = Fraction(1)
         for idx, e in zip(d[1:], exps):
             f *= _XF[idx] ** e
